@@ -10,6 +10,8 @@ func init() {
 			n = 600
 		}
 		wireFraming(c, n)
+		wireSendSweep(c)
+		wsIndependent(c)
 		c.Rep.Exhaustive = c.Thorough()
 	}
 	props["C16"] = func(c *Ctx) {
